@@ -24,6 +24,8 @@ import (
 	"github.com/hashicorp/go-hclog"
 	"github.com/hashicorp/raft"
 	wal "github.com/hashicorp/raft-wal"
+	"github.com/hashicorp/raft-wal/metadb"
+	"github.com/hashicorp/raft-wal/segment"
 
 	"verif/internal/crashsim"
 	"verif/internal/drv"
@@ -468,7 +470,40 @@ func replayJudge(c *evid.Ctx, idir string, or *rpOracle, replay map[string]any) 
 		report([]string{"C01", "C03"}, "open-failed", fmt.Sprintf("Open failed: %v", err))
 		return
 	}
-	defer drv.CloseWAL(w)
+	defer func() {
+		// C13 on the production stack: once Open (and the append below) are done and the WAL
+		// is closed, the directory holds exactly the files of the segments in BoltDB
+		hooks.WaitRotation(w, drv.Watchdog)
+		drv.CloseWAL(w)
+		var db metadb.BoltMetaDB
+		st, err := db.Load(idir)
+		db.Close()
+		if err != nil {
+			report([]string{"C13", "C03"}, "meta-unreadable-after-close", fmt.Sprintf("metadata cannot be loaded after Open+Close: %v", err))
+			return
+		}
+		want := map[string]bool{}
+		for _, si := range st.Segments {
+			want[segment.FileName(si)] = true
+		}
+		ents, _ := os.ReadDir(idir)
+		var extra, missing []string
+		for _, e := range ents {
+			if strings.HasSuffix(e.Name(), ".wal") {
+				if !want[e.Name()] {
+					extra = append(extra, e.Name())
+				}
+				delete(want, e.Name())
+			}
+		}
+		for n := range want {
+			missing = append(missing, n)
+		}
+		c.Count("replay_listings_compared", 1)
+		if len(extra)+len(missing) > 0 {
+			report([]string{"C13"}, fmt.Sprintf("listing:extra=%d,missing=%d", len(extra), len(missing)), fmt.Sprintf("after Open, one append and Close the directory differs from the committed metadata: extra files %v, missing files %v", extra, missing))
+		}
+	}()
 	legal := crashsim.Expand(or.l, or.inflight, or.batch+1)
 	obs := drv.Observe(w, model.ProbeSet(nil, legal...))
 	ok := false
